@@ -938,23 +938,35 @@ func (c *Ctx) cod4() {
 				break
 			}
 			var kinds []string
+			// min(size, buffer size): the decoded size when the packet fits, the buffer size when it does not — by construction
+			kk := func(v ssa.Value) string {
+				if call, ok := stripConv(v).(*ssa.Call); ok {
+					if bl, isB := call.Call.Value.(*ssa.Builtin); isB && bl.Name() == "min" && len(call.Call.Args) == 2 {
+						k0, k1 := kindOf(call.Call.Args[0]), kindOf(call.Call.Args[1])
+						if (k0 == "size" && k1 == "buffer") || (k0 == "buffer" && k1 == "size") {
+							return "min"
+						}
+					}
+				}
+				return kindOf(v)
+			}
 			if call, ok := arg.(*ssa.Call); ok && call.Call.StaticCallee() != nil && c.expandInPlace(pp, call.Call.StaticCallee()) {
 				// computed by a literal or helper ahead of this segment: whatever it can return
 				for _, b := range call.Call.StaticCallee().Blocks {
 					for _, ins := range b.Instrs {
 						if r, ok := ins.(*ssa.Return); ok && len(r.Results) == 1 {
-							kinds = append(kinds, kindOf(r.Results[0]))
+							kinds = append(kinds, kk(r.Results[0]))
 						}
 					}
 				}
 			} else if phi, ok := arg.(*ssa.Phi); ok {
 				for _, ed := range phi.Edges {
 					if ed != ssa.Value(phi) { // (the loop carries the value unchanged)
-						kinds = append(kinds, kindOf(ed))
+						kinds = append(kinds, kk(ed))
 					}
 				}
 			} else {
-				kinds = []string{kindOf(arg)}
+				kinds = []string{kk(arg)}
 			}
 			// is the packet known big / known to fit on this path?
 			big := 0
